@@ -3,7 +3,7 @@
    Proofs/, with Print Assumptions beneath it; Examples show non-vacuity and
    that the side conditions are needed. *)
 From Coq Require Import String Ascii Arith Bool List Reals QArith Qcanon.
-From ESRV Require Import Common.Py Gen.GenCancel Model.InvSubsText Model.SubsCancel Proofs.InvSubsTextProofs Proofs.SubsCancelProofs Proofs.CancelGenProofs Proofs.CancelGenericProofs.
+From ESRV Require Import Common.Py Gen.GenCancel Model.InvSubsText Model.SubsCancel Proofs.InvSubsTextProofs Proofs.SubsCancelProofs Proofs.CancelGenProofs Proofs.CancelGenericProofs Gen.GenRequote Proofs.RequoteGenProofs.
 Import ListNotations.
 Open Scope nat_scope.
 
@@ -33,6 +33,17 @@ Theorem C17_emitted_family_roundtrip : forall t : tmpl,
   In t (family 4 12) -> read_cell (show_tmpl t) = cell_of (wcell_of t).
 Proof. exact emitted_family_roundtrip. Qed.
 Print Assumptions C17_emitted_family_roundtrip.
+
+(* the four replace pairs and the nan literal are those of the current source (Gen/GenRequote.v, regenerated from load_subs) *)
+Theorem C17_requote_is_code : forall s, requote_code s = requote s.
+Proof. exact requote_is_code. Qed.
+Theorem C17_read_cell_is_code : forall s,
+  read_cell s =
+  let s' := requote_code s in
+  if str_eqb s' nan_literal_code then CNan
+  else match literal_eval_dict s' with Some d => CDict d | None => CError end.
+Proof. exact read_cell_is_code. Qed.
+Print Assumptions C17_read_cell_is_code.
 
 (* unrecoverable stays unrecoverable, and only that *)
 Theorem C17_nan_stays_nan : read_cell (lit "nan") = CNan.
